@@ -44,6 +44,22 @@ try:
                     got = c.decode_message_data(data)
                     if got != m:
                         out(True, f'{type(m).__qualname__} with {n} files over a {"obfuscated" if obf else "plain"} connection does not decode to itself', {'files': n})
+    # appending frames to a buffer that already holds data (the public serialize_into): the bytes before stay, the frame appended is the
+    # frame serialize() produces
+    for m in (M.Ping.Request(), M.GetUserStatus.Request('bob'), M.FileSearch.Request(1, 'query'),
+              M.PeerSearchReply.Request(username='u', ticket=7, results=files(3, 'track'), has_slots_free=True, avg_speed=1, queue_size=0, locked_results=[])):
+        for prefix in (b'', b'\x01\x02\x03', M.Ping.Request().serialize()):
+            buf = bytearray(prefix)
+            if isinstance(m, M.PeerSearchReply.Request):
+                m.serialize_into(buf, compress=True)
+                want = m.serialize()
+                ok = bytes(buf[:len(prefix)]) == prefix and type(m).deserialize(0, bytes(buf[len(prefix):])) == m and len(buf) - len(prefix) == len(want)
+            else:
+                m.serialize_into(buf)
+                ok = bytes(buf) == prefix + m.serialize()
+            if not ok:
+                out(True, f'{type(m).__qualname__}.serialize_into(buffer holding {len(prefix)} bytes): the buffer is {bytes(buf)[:40]!r}..., expected the old '
+                          f'content followed by the frame {m.serialize()[:24]!r}...', {'prefix': prefix.hex()})
 except Exception as e:     # noqa
     out(True, f'codec raised {e!r}', None)
 out(False)
